@@ -157,14 +157,15 @@ mutual
           have hc' : ws.visited.contains f.name = false := by simpa using hc
           have hlt := unvisited_lt d ws.visited f (fragForName_mem hf) hc'
           obtain ⟨r3, h3, hm3⟩ := hJ (Option.bind (some f) fun f => s.type? f.typeCond) f.sel
-            { (walkDirectives s cur (Option.bind (some f) fun f => s.type? f.typeCond) dirs locFragmentSpread
-                (ws.markSel p.start)).1 with
-              visited := f.name :: (walkDirectives s cur (Option.bind (some f) fun f => s.type? f.typeCond) dirs
-                locFragmentSpread (ws.markSel p.start)).1.visited }
-            (by simp only [hv]; omega)
+            (walkDirectives s cur (Option.bind (some f) fun f => s.type? f.typeCond) f.dirs locFragmentDefinition
+              { (walkDirectives s cur (Option.bind (some f) fun f => s.type? f.typeCond) dirs locFragmentSpread
+                  (ws.markSel p.start)).1 with
+                visited := f.name :: (walkDirectives s cur (Option.bind (some f) fun f => s.type? f.typeCond) dirs
+                  locFragmentSpread (ws.markSel p.start)).1.visited }).1
+            (by simp only [walkDirectives_visited, markSel_visited]; omega)
           rw [h3]
           refine ⟨_, rfl, ?_⟩
-          simp only [hv] at hm3
+          simp only [walkDirectives_visited, markSel_visited] at hm3
           exact fun a ha => hm3 (List.mem_cons_of_mem _ ha)
   theorem walkSelections_ok (s : SV) (d : QueryDoc) (cur : Option OperationDef) (J : Jump) (n : Nat) (hJ : JumpOK d n J) :
       ∀ (xs : Selections) (parent : Option Definition) (ws : WS), unvisited d ws.visited ≤ n →
